@@ -92,7 +92,8 @@ def cases(ctx):
             if kind == "remove":
                 c["regions"] = [rng.randint(0, 7) for _ in range(rng.randint(0, 4))]
             if kind == "rmbord":
-                c["rsize"] = rng.choice([1, 1, 2])
+                # an int or one width per axis; width 0 = touching that pair of faces is allowed
+                c["rsize"] = rng.choice([1, 1, 2, 0, [0, 1], [1, 0], [2, 1], [0, 0], [1, 3]])
         elif kind == "same":
             a = rand_labels(rng, N)
             r = rng.random()
@@ -138,6 +139,16 @@ def cases(ctx):
             c["dtype"] = dt
             c["vals"] = [rng.randint(0, 1) if dt == "bool" else rng.randint(0, 9) for _ in range(N)]
             c["labels"] = rand_labels(rng, N) if rng.random() < 0.6 else None
+            if rng.random() < 0.25:
+                # heavy pixels far from the origin: value x coordinate exceeds 2**31 / 2**32 while every sum is exact in double
+                dt = rng.choice(["int32", "uint32", "int64", "uint16"])
+                shape = [rng.randint(1, 3), rng.randint(150, 300)]
+                N = gen.size(shape)
+                top = {"int32": 2 ** 31 - 1, "uint32": 2 ** 32 - 1, "int64": 2 ** 40, "uint16": 65535}[dt]
+                vals = [0] * N
+                for _ in range(rng.randint(1, 6)):
+                    vals[rng.randrange(N)] = rng.choice([top, top // 2, top // 70, 30000000 if top > 30000000 else top])
+                c.update({"dtype": dt, "shape": shape, "vals": vals, "labels": rand_labels(rng, N) if rng.random() < 0.5 else None})
         yield c
 
 
@@ -383,15 +394,16 @@ def run_case(ctx, case):
         l0 = mklab(case)
         lab = apply_layout(l0, case["llayout"], fill=1)
         kl = lab.copy()
-        rs = case["rsize"]
+        rs = case["rsize"] if isinstance(case["rsize"], int) else tuple(case["rsize"])
         got = L.remove_bordering(lab, rsize=rs)
         if not np.array_equal(lab, kl):
             return Result(False, True, {"why": "input modified"})
         H, W = case["shape"]
+        ry, rx = (rs, rs) if isinstance(rs, int) else rs
         bad = set()
         for y in range(H):
             for x in range(W):
-                if (y < rs or y >= H - rs or x < rs or x >= W - rs) and l0[y, x] != 0:
+                if (y < ry or y >= H - ry or x < rx or x >= W - rx) and l0[y, x] != 0:
                     bad.add(int(l0[y, x]))
         defn = np.where(np.isin(l0, list(bad)), 0, l0)
         ok = np.array_equal(got, defn) and got.dtype == l0.dtype
